@@ -50,6 +50,11 @@ pub fn scenario(seed: u64, idx: u64) -> Scenario {
     entries.push(Entry { path: "linked-target.txt".into(), kind: EntryKind::File(Content::Gen { marker: format!("LINKED-{:08x}-\n", nonce), len: 80, seed: 1, binary: false }) });
     let ups = "../".repeat(depth);
     entries.push(Entry { path: format!("{}/out.txt", root), kind: EntryKind::Symlink(format!("{}linked-target.txt", ups)) });
+    // a directory link inside the root, and below the real directory a file link whose relative
+    // target climbs but physically stays inside the root (textual link resolution goes wrong here)
+    entries.push(Entry { path: format!("{}/lnk", root), kind: EntryKind::Symlink("d/e".into()) });
+    entries.push(Entry { path: format!("{}/d/e/back.txt", root), kind: EntryKind::Symlink("../../a.txt".into()) });
+    entries.push(Entry { path: format!("{}/d/e/back.html", root), kind: EntryKind::Symlink("../../index.html".into()) });
     // links inside nested directories whose relative target stays inside the root
     entries.push(Entry { path: format!("{}/d/up.txt", root), kind: EntryKind::Symlink("../a.txt".into()) });
     entries.push(Entry { path: format!("{}/d/e/upup.txt", root), kind: EntryKind::Symlink("../../a.txt".into()) });
@@ -91,9 +96,16 @@ pub fn scenario(seed: u64, idx: u64) -> Scenario {
             segs.push(last);
         }
         let path = segs.join("/");
-        let target = match rng.below(14) {
+        let target = match rng.below(15) {
+            14 => {
+                let n = *rng.pick(&[300usize, 1022, 1023, 1024, 1100, 2100, 4200]);
+                let sep = *rng.pick(&["/", "/./", "/d/../"]);
+                let tail = if rng.chance(1, 2) { rng.pick(&secret_names).clone() } else { "a.txt".to_string() };
+                let body: String = std::iter::repeat(sep).take((n * 1).min(9000 / sep.len())).collect();
+                format!("{}{}{}", body, "../".repeat(rng.range(1, depth)), tail)
+            }
             12 => rng.pick(&["//etc/passwd", "///etc/passwd", "/.//etc/passwd", "//etc//passwd", "/d//etc/passwd", "/%2fetc/passwd", "/etc/passwd", "/d/up.txt", "/d/e/upup.txt", "/d/e/side.html", "/d/e/side"]).to_string(),
-            13 => rng.pick(&["/d/up.txt", "/d/e/upup.txt", "/d/e/side.html", "/out.txt"]).to_string(),
+            13 => rng.pick(&["/d/up.txt", "/d/e/upup.txt", "/d/e/side.html", "/out.txt", "/lnk/back.txt", "/lnk/back.html", "/lnk/back", "/lnk/deep.txt", "/lnk/", "/lnk"]).to_string(),
             10 => format!("/h#x/{}?y=1", path),
             11 => format!("/{}?y#z", path),
             0 => path.clone(),
@@ -105,6 +117,9 @@ pub fn scenario(seed: u64, idx: u64) -> Scenario {
         };
         let method = *rng.pick(&["GET", "GET", "GET", "GET", "HEAD", "OPTIONS", "POST"]);
         let mut hs: Vec<(&str, String)> = vec![];
+        if rng.chance(1, 4) {
+            hs.push(("Host", rng.pick(&["..", "../..", "..:7878", ".", "o1", "root-backup", "root2", "sib-0", "localhost/..", "a/../..", "%2e%2e", "d", "d/e"]).to_string()));
+        }
         if rng.chance(1, 3) {
             hs.push(("Range", rng.pick(&["bytes=0-3", "bytes=0-", "bytes=-5", "bytes=0-3,5-9", "bytes=0-99999"]).to_string()));
         }
